@@ -103,6 +103,9 @@ def run(ctx) -> int:
         if name.startswith("cell") and cfg is cfgs[0]:
             name = "paragraph"
         cases.append((cfg, "render", contexts(x, True)[name][0], None))
+        if k % 4 == 0:
+            # the form the end-to-end theorem C09_render_inline_escaped speaks about
+            cases.append((cfg, "renderInline", esc_form(t), None))
     n_run, disagreements, kn, kbad, lines = pipecheck.correspond(cases, "c09")
 
     count = {"n": 0, "known": 0}
